@@ -647,8 +647,12 @@ dt_io_unescape(char *s)
 		return;
 	} else if ((p = q = strchr(s, '\\')) != NULL) {
 		do {
-			if (*p != '\\' || !*++p) {
+			if (*p != '\\') {
 				*q++ = *p++;
+			} else if (!*++p) {
+				/* lone backslash at the end, keep it */
+				*q++ = '\\';
+				break;
 			} else if (*p < 'a' || *p > 'v') {
 				*q++ = *p++;
 			} else {
